@@ -39,6 +39,7 @@ RULE = (
     'option point.'
 )
 RULE += (' ' + 'Also generated: members of a nested enum (Outer.Mode) and of an unrelated top-level enum with the same name and members; shared set nodes.')
+RULE += (' ' + 'Round 6: members of enums with an int / str mix-in (IntEnum, (str, Enum)).')
 RULE += (' ' + 'Rounds 3-5: complex unshared node inside a sub-fixture; nested sub-fixtures in every dict order; same-named modules (harness.vuni.fractions vs fractions); named tuples; parameters/classes whose names become Python keywords. The listed sub-fixture finding applies only when sharing crosses a sub-fixture boundary.')
 ASSUMPTIONS = [
     'tagged arguments all have values (property precondition)',
